@@ -428,6 +428,15 @@ fn agm_elliptic_perimeter(accuracy: f64, radii: Vec2) -> f64 {
         a = a_next;
     }
 
+    // `a` is still a_n, which exceeds the arithmetic-geometric mean by about c_(n+1); that
+    // error is not covered by the bound on the series above, so iterate the mean itself to
+    // convergence (it converges quadratically, this takes two or three more rounds).
+    while a - g > f64::EPSILON * a {
+        let a_next = (a + g) / 2.;
+        g = (a * g).sqrt();
+        a = a_next;
+    }
+
     2. * PI * x / a * sum
 }
 
